@@ -511,6 +511,23 @@ def processHeader (r : Repo) (h : Hdr) (hashOk : Bool) : Repo × StepOut :=
 
 /-! ### invalid marking (as the code is) -/
 
+/-- `Branches.Trim`, one branch of the list: removed when its parent was removed, or when it hangs off
+    the trimmed branch at or above the trim height; `acc = (kept, removed)`. -/
+def parentRemoved (r1 : Repo) (removed : List Nat) (x : Nat) : Bool :=
+  match (r1.br x).parent with
+  | some p => removed.contains p
+  | none => false
+
+def trimStep (r1 : Repo) (bi : Nat) (height : Int) (acc : List Nat × List Nat) (x : Nat) : List Nat × List Nat :=
+  let xb := r1.br x
+  if parentRemoved r1 acc.2 x then (acc.1, acc.2 ++ [x])
+  else if xb.parent == some bi && xb.parentHeight ≥ height then (acc.1, acc.2 ++ [x])
+  else (acc.1 ++ [x], acc.2)
+
+/-- `Branch.Trim`: the branch cut to `hs`; (repaired) the trimmed headers leave the height map too. -/
+def trimmedBranch (b : Branch) (off : Int) (hs : List HData) : Branch :=
+  { b with headers := hs, hmap := (b.headers.drop off.toNat).foldl (fun m d => HMap.del m d.hdr.id) b.hmap }
+
 /-- `Branch.Trim` + `Branches.Trim`. -/
 def trim (r : Repo) (bi : Nat) (height : Int) : M Repo :=
   let b := r.br bi
@@ -525,20 +542,11 @@ def trim (r : Repo) (bi : Nat) (height : Int) : M Repo :=
         match sliceTo b.headers off "Trim" with
         | .error e => .error e
         | .ok hs =>
-          -- (repaired) the trimmed headers leave the height map too
-          let gone := b.headers.drop off.toNat
-          .ok (r.setBranch bi { b with headers := hs, hmap := gone.foldl (fun m d => HMap.del m d.hdr.id) b.hmap })
+          .ok (r.setBranch bi (trimmedBranch b off hs))
   match step1 with
   | .error e => .error e
   | .ok r1 =>
-    let (keep, _) := r1.branches.foldl (fun (acc : List Nat × List Nat) x =>
-        let xb := r1.br x
-        let parentRemoved := match xb.parent with
-          | some p => acc.2.contains p
-          | none => false
-        if parentRemoved then (acc.1, acc.2 ++ [x])
-        else if xb.parent == some bi && xb.parentHeight ≥ height then (acc.1, acc.2 ++ [x])
-        else (acc.1 ++ [x], acc.2)) ([], [])
+    let (keep, _) := r1.branches.foldl (trimStep r1 bi height) ([], [])
     .ok { r1 with branches := keep }
 
 def markInvalid (r : Repo) (id : Nat) : Repo × Option Fail :=
